@@ -42,7 +42,7 @@ from tally import merchant_engine as ME  # noqa: E402
 from tally import section_engine as SE  # noqa: E402
 import difflib  # noqa: E402,F401  (pre-import so that fuzzy()'s lazy import is not an event)
 
-DATA_TYPES = (type(None), bool, int, float, str, datetime.date, bytes, complex, type(Ellipsis))
+DATA_TYPES = (type(None), bool, int, float, str, datetime.date, datetime.timedelta, bytes, complex, type(Ellipsis))
 BAD_TEXT = re.compile(r'<class |<function |<built-in |<module |<bound method |object at 0x|<generator object|<method|<slot wrapper|<attribute ')
 
 
@@ -117,7 +117,7 @@ def run_one(text):
         out['events'] = list(EVENTS)
         return out
     # ---- evaluate as a transaction expression ----
-    txn, ds, variables = mk_txn(), mk_ds(), {'threshold': 10, 'label': 'x'}
+    txn, ds, variables = mk_txn(), mk_ds(), {'threshold': 10, 'label': 'x', 'lst': ['a', 'b']}
     txn0, ds0, var0, dump0 = copy.deepcopy(txn), copy.deepcopy(ds), copy.deepcopy(variables), ast.dump(tree)
     PHASE[0] = 'eval'
     ARMED[0] = True
